@@ -10,7 +10,7 @@ def hexDigit (n : Nat) : Char :=
   if n < 10 then Char.ofNat (48 + n) else Char.ofNat (87 + n)
 
 def hexByte (b : UInt8) : String :=
-  String.mk [hexDigit (b.toNat / 16), hexDigit (b.toNat % 16)]
+  String.ofList [hexDigit (b.toNat / 16), hexDigit (b.toNat % 16)]
 
 def hexEncode (bs : Bytes) : String :=
   String.join (bs.map hexByte)
